@@ -44,7 +44,9 @@ def _s(e):
 
 EXCS = {"ValueError": lambda: ValueError("boom"), "UserKeyError": lambda: UserKeyError("k"), "KeyboardInterrupt": lambda: KeyboardInterrupt(),
         "SystemExit": lambda: SystemExit(3), "UserBase": lambda: UserBase("b"), "GeneratorExit": lambda: GeneratorExit(),
-        "StrRaises": lambda: StrRaises(), "KeyError": lambda: KeyError("missing"), "Falsy": lambda: Falsy()}
+        "StrRaises": lambda: StrRaises(), "KeyError": lambda: KeyError("missing"), "Falsy": lambda: Falsy(),
+        # the library's own exception class (public, derived from BaseException) raised by user code
+        "DDSException": lambda: __import__("dds").structures.DDSException("raised by the user's function")}
 
 
 def reach(spec, fname, seen=None):
@@ -168,7 +170,7 @@ def programs(tier):
 
 def cases(tier):
     out = []
-    excs = ["ValueError", "KeyboardInterrupt", "UserBase", "StrRaises", "KeyError", "Falsy"] if tier == "quick" else list(EXCS)
+    excs = ["ValueError", "KeyboardInterrupt", "UserBase", "StrRaises", "KeyError", "Falsy", "DDSException"] if tier == "quick" else list(EXCS)
     stores = ["memory", "local"] if tier == "quick" else ["memory", "local", "local_cache2"]
     for sp in programs(tier):
         fns = [f["name"] for f in sp["funcs"]]
